@@ -194,6 +194,7 @@ package astits
 //@   at call (*astikit.BytesIterator).Offset#1 assert cutEnd: i.offset == o + consumed
 //@   ensures [C11,C16] fresh: err == nil ==> a != nil && fresh(a)
 //@   ensures [C11,C02] length: err == nil ==> a.Length == L
+//@   ensures [C11,C01] onebyte: err == nil ==> a.IsOneByteStuffing == (L == 0)
 //@   ensures [C11,C03] offset: err == nil ==> i.offset == o + consumed
 //@   ensures [C11] stuffing: err == nil ==> a.StuffingLength == L - (consumed - 1)
 //@   ensures [C11,C06] disc: err == nil ==> a.DiscontinuityIndicator == (L > 0 && bit(fl, 0x80))
@@ -945,7 +946,7 @@ package astits
 
 //@ func (*packetAccumulator).add
 //@   requires b != nil && p != nil && (p.Header.HasAdaptationField ==> p.AdaptationField != nil)
-//@   requires 0 <= len(b.q) && len(b.q) <= cap(b.q) && cap(b.q) < 0x1000000000000 && allocated(b.q) && (len(b.q) > 0 ==> b.q[len(b.q) - 1] != nil)
+//@   requires accOK(b) && pktOK(p)
 //@   modifies b.q
 //@   let n = old(len(b.q))
 //@   let last = old(b.q[len(b.q) - 1])
@@ -960,6 +961,8 @@ package astits
 //@   ensures [C06,C02] extendlen: !dup && !discInd && !gap && !p.Header.PayloadUnitStartIndicator && !psiPID ==> len(ps) == 0 && len(b.q) == n + 1
 //@   ensures [C06] gapreset: !dup && (discInd || gap) && !p.Header.PayloadUnitStartIndicator && !psiPID ==> len(ps) == 0 && len(b.q) == 1
 //@   ensures [C06] gapdrop: n > 0 && p.Header.HasPayload && p.Header.ContinuityCounter != last.Header.ContinuityCounter && gap && !p.Header.PayloadUnitStartIndicator && !psiPID ==> len(b.q) == 0
+//@   ensures [C03,C06,C07,C02] inv: accOK(b)
+//@   ensures [C03,C06,C07,C02] group: 0 <= len(ps) && len(ps) < 0x40000001 && allocated(ps) && forall(k, 0, len(ps), pktOK(ps[k]))
 //@   ensures [C06] gapstart: !dup && (discInd || gap) && p.Header.PayloadUnitStartIndicator && !psiPID ==> len(ps) == 0 && len(b.q) == 1
 //@   opt noframe
 
